@@ -35,6 +35,9 @@ func runC02(c *Ctx) {
 	c02SameLine(c, ro)
 	c02Lists(c, ro)
 	c02Downstream(c, ro)
+	c02NoUnwrap(c, ro, "C02.nesting-preserved")
+	// the same-line tests read the preceding-line-break flag: every line break of the language must set it when skipped
+	c14FastPath(c, "C02.line-breaks-set-the-flag")
 }
 
 // ---------- ladder ----------
@@ -594,8 +597,20 @@ func c02Layers(c *Ctx, ro *ParserRoles, rule string) {
 			c.R.Undecided(rule, name, c.P.Pos(outer.Pos()), "no return")
 		}
 	}
-	wrapChk("lhs", ro.LHS, ro.CallRest, ro.MemberHi)
-	wrapChk("member", ro.MemberHi, ro.MemberRest, ro.Primary)
+	if ro.MergedLHS {
+		// one function: primary, then member rest on it, then call rest on that
+		wrapChk("lhs", ro.LHS, ro.CallRest, ro.MemberRest)
+		for _, call := range callsTo(ro.LHS, ro.MemberRest) {
+			for i, p := range ro.MemberRest.Params {
+				if typeName(p.Type()) == "Expression" {
+					chk("member-base", call, call.Call.Args[i], "the base handed to "+c.P.FuncKey(ro.MemberRest), ro.Primary)
+				}
+			}
+		}
+	} else {
+		wrapChk("lhs", ro.LHS, ro.CallRest, ro.MemberHi)
+		wrapChk("member", ro.MemberHi, ro.MemberRest, ro.Primary)
+	}
 	// unary dispatch: prefix tokens -> prefix parser, typeof -> typeof parser, everything else -> lhs
 	prefix := map[int64]bool{}
 	for _, n := range specPrefix {
@@ -1359,4 +1374,44 @@ func c02Downstream(c *Ctx, ro *ParserRoles) {
 		c.R.Check(rule, "prefix:"+c.SKName(k), arm.Pos, arm.Handler != nil, "the parser builds prefix nodes with operator "+c.SKName(k)+" but the evaluator has no arm for it")
 	}
 	c.R.Floor(rule, 20)
+}
+
+// c02NoUnwrap: the tree records the nesting as written. A parse function that returns an operand it has read OUT of a
+// node it obtained (`paren.Expression`, `node.Left`) throws that node away: parentheses disappear from the tree, and
+// with them what later stages key on (the field analysis refuses member access on `(x)`; a parenthesised assignment
+// target or callee is told apart from a bare one). Decided: no return value of a parse function that yields nodes is
+// rooted at a field load from another node.
+func c02NoUnwrap(c *Ctx, ro *ParserRoles, rule string) {
+	n := 0
+	for _, f := range ro.Reach.Order {
+		if len(f.Blocks) == 0 || f.Signature.Results().Len() != 1 || !isPointerLike(f.Signature.Results().At(0).Type()) {
+			continue
+		}
+		if f.Signature.Recv() == nil && len(f.Params) > 0 && f.Origin() != nil {
+			continue // generic node helpers (finishNode and friends) hand their parameter back
+		}
+		rn := typeName(f.Signature.Results().At(0).Type())
+		isNode := rn == "Expression" || rn == "Node"
+		if nt := namedOf(deref(f.Signature.Results().At(0).Type())); nt != nil && len(c.requiredFields(nt)) > 0 {
+			isNode = true
+		}
+		if !isNode {
+			continue
+		}
+		n++
+		bad := ""
+		instrs(f, func(b *ssa.BasicBlock, i int, in ssa.Instruction) {
+			ret, ok := in.(*ssa.Return)
+			if !ok || len(ret.Results) != 1 {
+				return
+			}
+			for _, rt := range c.nodeOrigins().Roots(ret.Results[0]) {
+				if _, ind := c.inductiveOperand(rt); ind {
+					bad = fmt.Sprintf("%s returns %s", c.P.InstrPos(ret), rt.String())
+				}
+			}
+		})
+		c.R.Check(rule, c.P.FuncKey(f), c.P.Pos(f.Pos()), bad == "", "a parse function must hand back the node it built or received, not an operand taken out of one: "+bad+"; the enclosing node (e.g. the parentheses around a name) vanishes from the tree")
+	}
+	c.R.Floor(rule, 10)
 }
